@@ -179,8 +179,8 @@ def check(pm: ProgramModel, ctx: Ctx) -> None:
               "constraint shapes that stress normal forms", ("constraint", "constraint-count"))
     cd.large(mb, BINARY_LOGICAL)
     cd.polarity(mb, BINARY_LOGICAL, "VOC")
-    cd.writer_reuse(mb)
-    cd.reader_reuse(mb)
+    cd.writer_reuse(mb, list_attr=True)
+    cd.reader_reuse(mb, list_attr=True)
     from ..interact import Fragment, sweep
     pv = {k: values[k] for k in ("none", "bool", "false", "int", "zero", "float", "float-integral", "empty-str", "str",
                                  "str-true", "str-number", "str-null", "empty-list", "list", "map", "map-keyed-name",
